@@ -68,7 +68,7 @@ def signature(scn, variant):
         "ok" if scn["out"]["ok"] else scn["out"]["err"])
 
 
-VARIANTS = [("i", "i", False), ("f", "f", False), ("s", "s", False), ("i", "f", True), ("f", "i", True)]
+VARIANTS = [("i", "i", False, 0), ("f", "f", False, 0), ("s", "s", False, 0), ("i", "f", True, 0), ("f", "i", True, 0), ("i", "i", False, -4), ("f", "f", False, -2)]
 
 
 def replay(scn):
@@ -79,12 +79,12 @@ def replay(scn):
     a_abs = i["a"]
     d = i["d"] - 1
     exp = scn["out"]
-    for vi, (ak, nk, mixed) in enumerate(VARIANTS):
+    for vi, (ak, nk, mixed, off) in enumerate(VARIANTS):
         if mixed and (any(h % 2 for h in i["new"]) and nk == "i"):
             continue
         if mixed and i["fam"] == "nd":
             continue
-        codec = A.LabelCodec(mixed=mixed)
+        codec = A.LabelCodec(mixed=mixed, offset=off)       # shifted labels: 0 and negative labels occur
         kinds = ["i"] * len(a_abs["dims"])
         kinds[d] = ak
         for form in ("list", "ndarray", "axis", "negpos"):
@@ -132,7 +132,7 @@ def replay(scn):
                 except A.Unprojectable as ex:
                     what = "result not projectable: %s" % ex
             if what:
-                viol.append(dict(what=what, sig=signature(scn, "%s<-%s/%s" % (ak, nk, form)), variant="%s<-%s %s" % (ak, nk, form)))
+                viol.append(dict(what=what, sig=signature(scn, "%s<-%s%s/%s" % (ak, nk, ("@%d" % off) if off else "", form)), variant="%s<-%s %s off=%d" % (ak, nk, form, off)))
     return dict(violations=viol, calls=calls)
 
 
